@@ -49,6 +49,8 @@ pub(crate) struct GetSlot {
     waiting_at_close: bool,
     /// state before the call, valid while nothing but this call touched the pool
     iso: Option<Iso>,
+    /// monotonic instant taken before the call was made
+    started_at: std::time::Instant,
 }
 
 #[derive(Clone, Debug)]
@@ -573,6 +575,7 @@ impl<'a> Interp<'a> {
             None
         };
         self.gets.push(GetSlot {
+            started_at: std::time::Instant::now(),
             iso,
             op,
             fut: Some(fut),
@@ -766,6 +769,7 @@ impl<'a> Interp<'a> {
         match res {
             Ok(obj) => {
                 let id = obj.id;
+                let started_at = self.gets[g].started_at;
                 let mv = MetricsView::from(deadpool::managed::Object::metrics(&obj));
                 self.gets[g].state = GState::Done(GetEnd::Ok(id));
                 self.label("get:ok");
@@ -810,6 +814,10 @@ impl<'a> Interp<'a> {
                                 (_, Some(t)) => {
                                     if t < mv.created {
                                         bad = Some("recycled is earlier than created".into());
+                                    }
+                                    // the object was recycled by this very call (monotonic clock)
+                                    if t < started_at {
+                                        bad = Some("recycled is older than the start of the get() that recycled the object".into());
                                     }
                                     if let Some(prev) = o.last_seen.and_then(|m| m.recycled) {
                                         if t < prev {
@@ -1143,6 +1151,9 @@ impl<'a> Interp<'a> {
         }
         if !expect_removed.is_empty() && kept > 0 {
             self.label("retain:proper-subset");
+        }
+        if preds.len() >= 3 {
+            self.label("retain:idle>=3");
         }
         // hand-over
         {
